@@ -631,7 +631,7 @@ mod verif_in_context {
     step_msg!(step_msg_subscribe_cancelled, 8, true);
 
     //@ h name=step_msg_publish_q1_pending props=C16,C01,C10 tier=off cap=small to=1200 mem=40
-    //@ h name=step_msg_subscribe_pending props=C16,C01 tier=thorough cap=small to=1200
+    //@ h name=step_msg_subscribe_pending props=C16,C01 tier=off cap=small to=1200 mem=40
     //@ h name=step_msg_publish_q0_pending props=C16,C01 tier=quick cap=small to=1200
     //@ claim: the same handle_message step against a transport that first answers Pending: the step returns Pending only because the transport did (whose waker is then registered), nothing has reached the wire at that point, and the next poll completes it with exactly the same result as an undelayed step: the packet on the wire exactly once and whole, one quota slot, one waiter, one retransmit entry
     //@ bounds: as step_msg_*; one Pending answer, then every write accepted at once
